@@ -33,9 +33,10 @@ class ChildrenPlugin(LinkPlugin):
     def ev_ListComp(self, eng, e, st):
         # len([v for v in value if COND(v)]) > 0  : the filtered list is non-empty exactly if some listed task satisfies COND
         g = e.generators[0]
-        if len(e.generators) == 1 and isinstance(e.elt, ast.Name) and e.elt.id == g.target.id and len(g.ifs) == 1 and isinstance(g.iter, ast.Name):
+        if len(e.generators) == 1 and isinstance(e.elt, ast.Name) and e.elt.id == g.target.id and len(g.ifs) == 1:
             s, xs = eng.ev1(g.iter, st)
-            if xs.s != LT: return LinkPlugin.ev_ListComp(self, eng, e, st)
+            if xs.s not in (LT, LR): return LinkPlugin.ev_ListComp(self, eng, e, st)
+            xs = V(self.listval(eng, s, xs, e.lineno), LT)
             probe = fresh('probe', T); s2 = s.fork(); s2.env = dict(s.env); s2.env[g.target.id] = V(probe, T)
             s2.assume(mem(xs.e, probe))                      # the condition is evaluated for the elements of the list only
             outs = eng.ev(g.ifs[0], s2)
@@ -44,9 +45,29 @@ class ChildrenPlugin(LinkPlugin):
             cond = eng.truth(s3, cv) if cv.s != BOOL else cv.e
             P = lambda t: substitute(cond, (probe, t))
             Fv = fresh('filtered', LT)
-            s.assume(And(ln(Fv) >= 0, (ln(Fv) > 0) == Exists([x], And(mem(xs.e, x), P(x))), ForAll([x], mem(Fv, x) == And(mem(xs.e, x), P(x)), patterns=[mem(Fv, x)])))
+            # assumed semantics of a comprehension with a condition (T1): the elements that satisfy it, in the order of the list
+            s.assume(And(ln(Fv) >= 0, (ln(Fv) > 0) == Exists([x], And(mem(xs.e, x), P(x))), ForAll([x], mem(Fv, x) == And(mem(xs.e, x), P(x)), patterns=[mem(Fv, x)]),
+                         Implies(nodup(xs.e), nodup(Fv)),
+                         ForAll([a_, b_], Implies(And(mem(Fv, a_), mem(Fv, b_)), (idx(Fv, a_) < idx(Fv, b_)) == (idx(xs.e, a_) < idx(xs.e, b_))), patterns=[MultiPattern(idx(Fv, a_), idx(Fv, b_))])))
             return [(s, V(Fv, LT))]
         return LinkPlugin.ev_ListComp(self, eng, e, st)
+
+    def for_loop(self, eng, stmt, st):
+        s0, seq = eng.ev1(stmt.iter, st)
+        if seq.s == FAC:          # iterating a children facade = iterating the list object it wraps (live)
+            s0.oblige('safe/AttributeError-None', seq.e != FAC.null, f'for @{stmt.lineno}')
+            seq = V(Select(eng.field(s0, 'ChildrenFacade', '_list'), seq.e), LR)
+        if seq.s != LR: return NotImplemented
+        k = eng.loop_contract.get(eng.loop_ids[id(stmt)], (eng.loop_ids[id(stmt)], None))[0]; idxn = f'_i{k}'; eng.locals[idxn] = INT
+        s0.env[idxn] = V(IntVal(0), INT)
+        s0.oblige('safe/AttributeError-None', seq.e != LR.null, f'for @{stmt.lineno}')
+        cur = lambda s: Select(eng.field(s, 'PyList', 'elems'), seq.e)
+
+        def guard(s): return [(s, s.env[idxn].e < ln(cur(s)))]
+
+        def pre(b_):
+            b_.env[stmt.target.id] = V(at(cur(b_), b_.env[idxn].e), T); b_.env[idxn] = V(b_.env[idxn].e + 1, INT); return [b_]
+        return eng.loop(stmt, s0, guard, pre, extra_havoc=[idxn])
 
     def call(self, eng, e, st):
         f = e.func
@@ -198,3 +219,193 @@ def children_setter_unit():
 
 
 UNITS = [children_setter_unit()]
+
+
+# ================================================================================================ callers of the children setter
+from contracts.task import FAC_CLASSES, c_check_not_none, c_root
+
+SETTER_FINAL = ['C16/children-list-is-exactly-the-given-list', 'C16/every-named-task-reports-this-parent', 'C11,C16/children-left-out-are-detached', 'C16/parents-of-all-other-tasks-unchanged',
+                'C16/other-children-lists-only-lose-the-named-tasks', 'C16/dependency-lists-ids-and-list-objects-unchanged']
+
+
+def setter_effect(h, g, m, Vv):
+    C = g.ch(m)
+    return {'C16/children-list-is-exactly-the-given-list': h.ch(m) == Vv,
+            'C16/every-named-task-reports-this-parent': ForAll([x], Implies(mem(Vv, x), h.par[x] == m), patterns=[mem(Vv, x)]),
+            'C11,C16/children-left-out-are-detached': ForAll([x], Implies(And(mem(C, x), Not(mem(Vv, x))), And(h.par[x] == null, h.own[x] == W.null)), patterns=[mem(C, x)]),
+            'C16/parents-of-all-other-tasks-unchanged': ForAll([x], Implies(And(Not(mem(Vv, x)), Not(mem(C, x))), h.par[x] == g.par[x]), patterns=[h.par[x]]),
+            'C16/other-children-lists-only-lose-the-named-tasks': ForAll([t_, x], Implies(And(t_ != null, t_ != m), mem(h.ch(t_), x) == And(mem(g.ch(t_), x), Not(mem(Vv, x)))), patterns=[mem(h.ch(t_), x)]),
+            'C16/dependency-lists-ids-and-list-objects-unchanged': And(h.chl == g.chl, h.tid == g.tid, h.root == g.root, h.pre == g.pre, h.suc == g.suc,
+                                                                       ForAll([t_], Implies(t_ != null, And(h.P(t_) == g.P(t_), h.S(t_) == g.S(t_))), patterns=[h.pre[t_]]))}
+
+
+def children_setter_call(eng, st, m, Vv, line):
+    """the contract of Task.children.setter at a call site, for a list value Vv (proved by children_setter_unit for lists without repetitions).
+    Three outcomes: rejected by a check (nothing changed, a stated reason holds), rejected inside the attach loop (NOT excluded by the proof: the heap is
+    unspecified then - C15 for this path is the bounded stand-in's), accepted (Inv + effect)."""
+    g = H(eng, st)
+    for lab, f in Inv(g).items():
+        if lab != U1: st.oblige(f'req@children.setter/{lab}', f, f'@{line}')
+    st.oblige('req@children.setter/task-non-null', m != null, f'@{line}')
+    st.oblige('req@children.setter/list-of-public-tasks-without-repetition', And(nodup(Vv), ForAll([x], Implies(mem(Vv, x), And(x != null, g.tid[x] != EMPTY)), patterns=[mem(Vv, x)])), f'@{line}')
+    rc = reasons(g, m, Vv)
+    exc1 = st.fork(rc); exc2 = st.fork(Not(rc)); ok = st.fork(Not(rc))
+    for s2 in (exc2, ok):
+        for k in ('Task._Task__parent', 'Task._Task__wbs', 'PyList.elems'): eng.havoc(s2, k)
+    exc2.ghost['attach_rejected'] = BoolVal(True)
+    h = H(eng, ok)
+    for lab, f in Inv(h).items():
+        if lab != U1: ok.assume(f)
+    for f in setter_effect(h, g, m, Vv).values(): ok.assume(f)
+    return [(ok, V(None, NONE)), (exc1, Raise('RuntimeError')), (exc2, Raise('RuntimeError'))]
+
+
+def roots_setter_unit():
+    """WBS.roots = value  ==  <hidden root>.children = value"""
+    def build():
+        hc = lambda c: H(c.eng, c.st); h0 = lambda c: H(c.eng, c.pre); root = lambda c: h0(c).root[c['self']]
+
+        def c_set_children(eng, st, recv, args, kws, node):
+            return children_setter_call(eng, st, recv.e, args[0].e, node.lineno)
+        fc = {'sig': {'self': W, 'value': LT}, 'ghost': {'attach_rejected': BOOL},
+              'requires': [(l_, (lambda l_: lambda c: Inv(hc(c))[l_])(l_)) for l_ in LABS] +
+                          [('wbs-non-null', lambda c: c['self'] != W.null), ('ghost-flag-starts-false', lambda c: Not(c.st.ghost['attach_rejected'])),
+                           ('list-of-public-tasks-without-repetition', lambda c: And(nodup(c['value']), ForAll([x], Implies(mem(c['value'], x), And(x != null, hc(c).tid[x] != EMPTY)))))],
+              'raises': {'RuntimeError': [('C15/a-call-rejected-by-a-check-changes-nothing', lambda c: Or(c.st.ghost['attach_rejected'], And(hc(c).par == h0(c).par, hc(c).own == h0(c).own, hc(c).elems == h0(c).elems))),
+                                          ('C01,C05,C11/rejected-by-a-check-only-for-a-stated-reason', lambda c: Or(c.st.ghost['attach_rejected'], reasons(h0(c), root(c), c['value'])))]},
+              'ensures': [(l_, (lambda l_: lambda c: Inv(hc(c))[l_])(l_)) for l_ in LABS] +
+                         [(l_.replace('children-list', 'list-of-root-tasks'), (lambda l_: lambda c: setter_effect(hc(c), h0(c), root(c), c['value'])[l_])(l_)) for l_ in SETTER_FINAL]}
+        return Engine('pjplan/wbs.py', 'WBS.roots.setter', {'setprop:Task.children': c_set_children}, TASK_CLASSES, fc, plugins=[ChildrenPlugin()]), LIST_AX + GRAPH_AX
+    return Unit('WBS.roots.setter', 'pjplan/wbs.py', build, ['C01', 'C11', 'C15', 'C16'], timeout_ms=15000)
+
+
+def facade_remove_unit():
+    """_ChildrenList.remove(task): the children of the facade's task without `task`, assigned through the children setter"""
+    def build():
+        hc = lambda c: H(c.eng, c.st); h0 = lambda c: H(c.eng, c.pre)
+        fp = lambda c, w='cur': Select(c.fld('ChildrenFacade', '_ChildrenList__parent', w), c['self'])
+        fl = lambda c, w='cur': Select(c.fld('ChildrenFacade', '_list', w), c['self'])
+        L0 = lambda c: h0(c).ch(fp(c, 'pre'))
+
+        def c_set_children(eng, st, recv, args, kws, node):
+            Vv = ChildrenPlugin().listval(eng, st, args[0], node.lineno)
+            st.ghost['assigned'] = Vv
+            return children_setter_call(eng, st, recv.e, Vv, node.lineno)
+        unchanged = lambda c: And(hc(c).par == h0(c).par, hc(c).own == h0(c).own, hc(c).elems == h0(c).elems)
+        fc = {'sig': {'self': FAC, 'task': T}, 'ghost': {'attach_rejected': BOOL},
+              'requires': [(l_, (lambda l_: lambda c: Inv(hc(c))[l_])(l_)) for l_ in LABS] +
+                          [('facade-of-a-task-reading-its-current-children-list', lambda c: And(c['self'] != FAC.null, fp(c) != null, fl(c) == hc(c).chl[fp(c)])),
+                           ('ghost-flag-starts-false', lambda c: Not(c.st.ghost['attach_rejected']))],
+              'raises': {'RuntimeError': [('C15/rejected-before-anything-is-written-changes-nothing', lambda c: Or(c.st.ghost['attach_rejected'], unchanged(c)))]},
+              'ensures': [('C16/return-value-tells-membership', lambda c: c.result.e == mem(L0(c), c['task'])),
+                          ('C15,C16/a-task-that-is-not-listed-changes-nothing', lambda c: Implies(Not(mem(L0(c), c['task'])), unchanged(c))),
+                          ('C16/list-is-the-old-list-without-the-task-order-kept', lambda c: Implies(mem(L0(c), c['task']),
+                              And(ForAll([x], mem(hc(c).ch(fp(c, 'pre')), x) == And(mem(L0(c), x), x != c['task'])),
+                                  ForAll([a_, b_], Implies(And(mem(hc(c).ch(fp(c, 'pre')), a_), mem(hc(c).ch(fp(c, 'pre')), b_)),
+                                                           (idx(hc(c).ch(fp(c, 'pre')), a_) < idx(hc(c).ch(fp(c, 'pre')), b_)) == (idx(L0(c), a_) < idx(L0(c), b_))))))),
+                          ('C11,C16/the-removed-task-has-no-parent-and-no-owner', lambda c: Implies(mem(L0(c), c['task']), And(hc(c).par[c['task']] == null, hc(c).own[c['task']] == W.null))),
+                          ('C16/parents-of-all-other-tasks-unchanged', lambda c: ForAll([x], Implies(x != c['task'], hc(c).par[x] == h0(c).par[x])))] +
+                         [(l_, (lambda l_: lambda c: Inv(hc(c))[l_])(l_)) for l_ in LABS]}
+        return Engine(F, '_ChildrenList.remove', {'fn:_check_not_none': c_check_not_none, 'setprop:Task.children': c_set_children}, FAC_CLASSES, fc, plugins=[ChildrenPlugin()]), LIST_AX + GRAPH_AX
+    return Unit('_ChildrenList.remove', F, build, ['C01', 'C11', 'C15', 'C16'], timeout_ms=15000)
+
+
+UNITS += [roots_setter_unit(), facade_remove_unit()]
+
+
+# ================================================================================================ WBS.__remove / WBS.remove
+FWBS = 'pjplan/wbs.py'
+
+
+def removal_effect(h, g, p, task):
+    """effect of removing `task` from the children of p (what _ChildrenList.remove proves)"""
+    L0 = g.ch(p)
+    return And(ForAll([x], mem(h.ch(p), x) == And(mem(L0, x), x != task), patterns=[mem(h.ch(p), x)]),
+               ForAll([a_, b_], Implies(And(mem(h.ch(p), a_), mem(h.ch(p), b_)), (idx(h.ch(p), a_) < idx(h.ch(p), b_)) == (idx(L0, a_) < idx(L0, b_))), patterns=[MultiPattern(idx(h.ch(p), a_), idx(h.ch(p), b_))]),
+               h.par[task] == null, h.own[task] == W.null, ForAll([x], Implies(x != task, h.par[x] == g.par[x]), patterns=[h.par[x]]))
+
+
+def c_facade_remove(eng, st, recv, args, kws, node):
+    """contract of _ChildrenList.remove on a facade just obtained from `current.children` (proved by facade_remove_unit)"""
+    g = H(eng, st); p = Select(eng.field(st, 'ChildrenFacade', '_ChildrenList__parent'), recv.e); task = args[0].e
+    for lab, f in Inv(g).items():
+        if lab != U1: st.oblige(f'req@children.remove/{lab}', f, f'@{node.lineno}')
+    st.oblige('req@children.remove/facade-of-a-task-reading-its-current-children-list', And(recv.e != FAC.null, p != null, Select(eng.field(st, 'ChildrenFacade', '_list'), recv.e) == g.chl[p]), f'@{node.lineno}')
+    none = st.fork(task == null); absent = st.fork(And(task != null, Not(mem(g.ch(p), task)))); found = st.fork(And(task != null, mem(g.ch(p), task))); rej = st.fork(And(task != null, mem(g.ch(p), task)))
+    for s2 in (found, rej):
+        for k in ('Task._Task__parent', 'Task._Task__wbs', 'PyList.elems'): eng.havoc(s2, k)
+    rej.ghost['attach_rejected'] = BoolVal(True)
+    h = H(eng, found)
+    for lab, f in Inv(h).items():
+        if lab != U1: found.assume(f)
+    found.assume(removal_effect(h, g, p, task))
+    return [(absent, V(BoolVal(False), BOOL)), (found, V(BoolVal(True), BOOL)), (none, Raise('RuntimeError')), (rej, Raise('RuntimeError'))]
+
+
+def wbs_remove_units():
+    from contracts.task import c_children
+
+    def spec(c, cur):
+        """relational post-condition of __remove(task, cur)"""
+        h, g = H(c.eng, c.st), H(c.eng, c.pre); task = c['task_to_remove']
+        unchanged = And(h.par == g.par, h.own == g.own, h.elems == g.elems)
+        return {'C16/returns-whether-the-task-is-below-the-start-task': c.result.e == And(task != null, Desc(g.par, cur, task)),
+                'C15,C16/nothing-changes-if-it-is-not': Implies(Not(And(task != null, Desc(g.par, cur, task))), unchanged),
+                'C11,C16/the-task-is-removed-from-the-children-of-its-parent-and-detached': Implies(And(task != null, Desc(g.par, cur, task)), removal_effect(h, g, g.par[task], task))}
+    SL = ['C16/returns-whether-the-task-is-below-the-start-task', 'C15,C16/nothing-changes-if-it-is-not', 'C11,C16/the-task-is-removed-from-the-children-of-its-parent-and-detached']
+
+    def c_rec(eng, st, recv, args, kws, node, rec=True):
+        g = H(eng, st); task, cur = args[0].e, args[1].e; me = st.env['current'].e if rec else None
+        for lab, f in Inv(g).items():
+            if lab != U1: st.oblige(f'req@recursive-call/{lab}', f, f'@{node.lineno}')
+        st.oblige('req@recursive-call/start-task-non-null', cur != null, f'@{node.lineno}')
+        if rec: st.oblige('dec/C14/height-decreases-at-the-recursive-call', And(hgt(g.par, cur) < hgt(g.par, me), hgt(g.par, cur) >= 0), f'@{node.lineno}')
+        below = And(task != null, Desc(g.par, cur, task))
+        no = st.fork(Not(below)); yes = st.fork(below); rej = st.fork(below)
+        for s2 in (yes, rej):
+            for k in ('Task._Task__parent', 'Task._Task__wbs', 'PyList.elems'): eng.havoc(s2, k)
+        rej.ghost['attach_rejected'] = BoolVal(True)
+        h = H(eng, yes)
+        for lab, f in Inv(h).items():
+            if lab != U1: yes.assume(f)
+        yes.assume(removal_effect(h, g, g.par[task], task))
+        return [(no, V(BoolVal(False), BOOL)), (yes, V(BoolVal(True), BOOL)), (rej, Raise('RuntimeError'))]
+
+    def build_rec():
+        hc = lambda c: H(c.eng, c.st); h0 = lambda c: H(c.eng, c.pre)
+
+        def inv(c):
+            h, g = hc(c), h0(c); cur = c['current']; task = c['task_to_remove']; C = g.ch(cur); i = c['_i0']
+            return And(h.par == g.par, h.own == g.own, h.elems == g.elems, h.chl == g.chl, h.tid == g.tid, h.root == g.root, h.pre == g.pre, h.suc == g.suc,
+                       i >= 0, i <= ln(C), task != null, Not(mem(C, task)), Not(c.st.ghost['attach_rejected']),
+                       ForAll([x], Implies(And(mem(C, x), idx(C, x) < i), Not(Desc(g.par, x, task))), patterns=[mem(C, x)]))
+        fc = {'sig': {'self': W, 'task_to_remove': T, 'current': T}, 'ghost': {'attach_rejected': BOOL},
+              'requires': [(l_, (lambda l_: lambda c: Inv(hc(c))[l_])(l_)) for l_ in LABS] + [('wbs-and-start-task-non-null', lambda c: And(c['self'] != W.null, c['current'] != null)), ('ghost-flag-starts-false', lambda c: Not(c.st.ghost['attach_rejected']))],
+              'loops': {0: {'fingerprint': 'for ch in current.children', 'invariant': [('not-below-the-children-visited-so-far-nothing-changed', inv)]}},
+              'raises': {'RuntimeError': [('C15/only-the-removal-itself-may-be-refused', lambda c: c.st.ghost['attach_rejected'])]},
+              'ensures': [(l_, (lambda l_: lambda c: spec(c, c['current'])[l_])(l_)) for l_ in SL] + [(l_, (lambda l_: lambda c: Inv(hc(c))[l_])(l_)) for l_ in LABS]}
+        contracts = {'prop:Task.children': c_children, 'ChildrenFacade.remove': c_facade_remove, 'WBS._WBS__remove': c_rec}
+        return Engine(FWBS, 'WBS.__remove', contracts, FAC_CLASSES, fc, plugins=[ChildrenPlugin()]), LIST_AX + GRAPH_AX + KID_AX + MEASURE_AX
+    def build_remove():
+        hc = lambda c: H(c.eng, c.st); h0 = lambda c: H(c.eng, c.pre); root = lambda c: h0(c).root[c['self']]
+
+        class IsTask(ChildrenPlugin):
+            def call(self, eng, e, st):
+                if isinstance(e.func, ast.Name) and e.func.id == 'isinstance' and ast.unparse(e.args[1]) == 'Task':
+                    s, v = eng.ev1(e.args[0], st)
+                    if v.s == T: return [(s, V(v.e != null, BOOL))]          # the parameter is a Task or None
+                if isinstance(e.func, ast.Name) and e.func.id == 'type': return [(st, V(fresh('typename', STR), STR))]
+                return ChildrenPlugin.call(self, eng, e, st)
+        fc = {'sig': {'self': W, 'task': T}, 'ghost': {'attach_rejected': BOOL},
+              'requires': [(l_, (lambda l_: lambda c: Inv(hc(c))[l_])(l_)) for l_ in LABS] + [('wbs-non-null', lambda c: c['self'] != W.null), ('ghost-flag-starts-false', lambda c: Not(c.st.ghost['attach_rejected']))],
+              'raises': {'RuntimeError': [('C15/refused-only-for-None-or-by-the-removal-itself', lambda c: Or(c.st.ghost['attach_rejected'], And(c['task'] == null, hc(c).par == h0(c).par, hc(c).own == h0(c).own, hc(c).elems == h0(c).elems)))]},
+              'ensures': [('C11,C16/returns-whether-the-task-is-a-member-of-this-WBS', lambda c: c.result.e == Desc(h0(c).par, root(c), c['task'])),
+                          ('C15,C16/nothing-changes-for-a-task-that-is-no-member', lambda c: Implies(Not(Desc(h0(c).par, root(c), c['task'])), And(hc(c).par == h0(c).par, hc(c).own == h0(c).own, hc(c).elems == h0(c).elems))),
+                          ('C11,C16/a-member-is-removed-from-the-children-of-its-parent-and-detached', lambda c: Implies(Desc(h0(c).par, root(c), c['task']), removal_effect(hc(c), h0(c), h0(c).par[c['task']], c['task'])))] +
+                         [(l_, (lambda l_: lambda c: Inv(hc(c))[l_])(l_)) for l_ in LABS]}
+        contracts = {'WBS._WBS__remove': lambda eng, st, recv, args, kws, node: c_rec(eng, st, recv, args, kws, node, rec=False)}
+        return Engine(FWBS, 'WBS.remove', contracts, FAC_CLASSES, fc, plugins=[IsTask()]), LIST_AX + GRAPH_AX
+    return [Unit('WBS.__remove', FWBS, build_rec, ['C11', 'C14', 'C15', 'C16'], timeout_ms=15000), Unit('WBS.remove', FWBS, build_remove, ['C11', 'C15', 'C16'], timeout_ms=15000)]
+
+
+UNITS += wbs_remove_units()
